@@ -302,7 +302,23 @@ pub fn run_plan(b: u64, plan: &Value, seed: u64) -> Value {
 fn run_cache(seed: u64, n: u64, out: &mut Out) -> (u64, Vec<Value>) {
     let mut sim = Sim::new(seed ^ 0xCAC4E, NetCfg { lat_min_ms: 1, lat_max_ms: 1, cadence_ms: 100, ..Default::default() });
     let ids: Vec<[u8; 20]> = (0..4).map(|i| crypto::sha1(&[i as u8, 77])).collect();
-    let net = FakeNet::install(&mut sim, &ids, Box::new(|_, _, _| Reply::Default));
+    // outage windows: for a stretch of lookups the peers are silent (mode 1) or answer without a token (mode 2), so lookups of
+    // every kind finish with ZERO responders; the hot targets are looked up in and out of the windows, so such entries are
+    // overwritten by, and overwrite, ordinary ones
+    let mode = std::rc::Rc::new(std::cell::RefCell::new(0u8));
+    let mode2 = mode.clone();
+    let net = FakeNet::install(&mut sim, &ids, Box::new(move |me, m, w| match *mode2.borrow() {
+        1 => Reply::Silent,
+        2 => {
+            let q = m.q.clone().unwrap_or_default();
+            if q == "get" || q == "get_peers" || q == "get_signed_peers" {
+                Reply::One(lookup_reply(&[], me, m, w, &[], false), 1)
+            } else {
+                Reply::Default
+            }
+        }
+        _ => Reply::Default,
+    }));
     let c = sim.add_node(NodeOpts::client(private_ip(2), &net.bootstrap()));
     sim.run_for(2500);
     let mut rng = crate::rng::Rng::new(seed ^ 77);
@@ -315,7 +331,13 @@ fn run_cache(seed: u64, n: u64, out: &mut Out) -> (u64, Vec<Value>) {
     }
     for i in 0..n {
         // mostly fresh targets (rolls the cache), sometimes a repeated one incl. the node's own id, of every kind
-        let t = if rng.chance(1, 6) { *rng.pick(&hot) } else { rng.id() };
+        *mode.borrow_mut() = match i % 220 {
+            70..=84 => 1,
+            150..=164 => 2,
+            _ => 0,
+        };
+        let in_window = *mode.borrow() != 0;
+        let t = if rng.chance(1, if in_window { 2 } else { 6 }) { *rng.pick(&hot) } else { rng.id() };
         let kind = match rng.below(6) {
             0 | 1 => GetKind::FindNode,
             2 => GetKind::SignedPeers,
